@@ -8,19 +8,10 @@
   constructor on generated registries with a repeated type and `Batch::new` on every combination
   of column lengths.
 -/
-import BroodModel.Generated.Tables
+import BroodModel.Ctor
 
 namespace Brood
 open Static Generated
-
-/-- `Registry::assert_no_duplicates`: walk the registry inserting each type into a set;
-`asserts`: the insert's result is asserted; `recurses`: the tail is visited. Returns `true` when
-no assertion fires. -/
-def assertNoDup (shape : Bool × Bool) : List Nat → List Nat → Bool
-  | [], _ => true
-  | t :: ts, seen =>
-    (if shape.1 then !seen.contains t else true) &&
-    (if shape.2 then assertNoDup shape ts (t :: seen) else true)
 
 theorem assertNoDup_iff (ts seen : List Nat) :
     assertNoDup (true, true) ts seen = true ↔ (ts.Nodup ∧ ∀ t ∈ ts, t ∉ seen) := by
@@ -65,16 +56,6 @@ theorem C18_all_ctors :
     worldCalls.lookup "mod::new" = some ["with_resources"] ∧
     worldCalls.lookup "impl_default::default" = some ["with_resources"] ∧
     worldCalls.lookup "impl_serde::visit_seq" = some ["from_raw_parts"] := by decide
-
-/-- `Length::check_len` on the list of column lengths, by the extracted shape
-`[new asserts, new_unchecked unsafe, head uses first column, compares, recurses, Null is true]`. -/
-def checkLenAgainst (compares recurses : Bool) (len : Nat) : List Nat → Bool
-  | [] => true
-  | c :: cs => (if compares then c == len else true) && (if recurses then checkLenAgainst compares recurses len cs else true)
-
-def checkLen (shape : List Bool) : List Nat → Bool
-  | [] => true
-  | c :: cs => checkLenAgainst (shape.getD 3 false) (shape.getD 4 false) c cs
 
 theorem checkLenAgainst_iff (len : Nat) (cs : List Nat) :
     checkLenAgainst true true len cs = true ↔ ∀ c ∈ cs, c = len := by
